@@ -31,3 +31,20 @@ Example C02_src_past_duration_off_cycle :
   src_jump_delegates 3 6 20 None = true /\ src_logpdf_delegates 3 6 20 None = true /\
   src_jump_delegates 3 6 4 None = false /\ src_logpdf_delegates 3 6 4 None = false.
 Proof. vm_compute. repeat split. Qed.
+
+(** the jump whose law the cell theorems of [Props/C02.v] describe is the jump of the source: one pass of
+    [BoundedDiscrete._jump]'s redraw loop and the acceptance test of [BoundedNormal._jump] as written in /repo
+    today ([Gen/SrcJump.v], tools/py2coq_jump.py), iterated to the first accepted draw, are [bd_jump1] / [bn_jump1] *)
+From Coq Require Import List.
+From Epsie Require Import Num Dens Gen.SrcJump SrcTie_jump.
+Theorem C02_src_bounded_discrete_jump_is_the_model :
+  forall {T} (rnd fc : T -> Z) succ (lo hi x : Z) (draws : list T),
+  first_accepted (src_bd_accept rnd fc succ lo hi x) draws = bd_jump1 rnd fc succ lo hi x draws.
+Proof. intros. apply src_bd_jump_tie. Qed.
+Print Assumptions C02_src_bounded_discrete_jump_is_the_model.
+
+Theorem C02_src_bounded_normal_jump_is_the_model :
+  forall {T} `{Num T} (lo hi : T) (draws : list T),
+  first_accepted (fun y => if src_bn_accept lo hi y then Some y else None) draws = bn_jump1 lo hi draws.
+Proof. intros. apply src_bn_jump_tie. Qed.
+Print Assumptions C02_src_bounded_normal_jump_is_the_model.
